@@ -72,6 +72,125 @@ def generate(ctx, d, ns, files, lib=None):
     return {"model": model, "lits": literals(d + "/out", ns.lower()), "files": files}
 
 
+COMMENTED_MODEL = """# doc of R
+R: !record
+  fields:
+    # doc of a
+    a: int32
+    # doc of arr
+    arr: !array
+      # doc of the items
+      items: float32
+      dimensions:
+        # doc of dimension x
+        x:
+        # doc of dimension y
+        y:
+    # doc of fx
+    fx: !array
+      items: int32
+      dimensions:
+        # doc of dimension ra
+        ra: 2
+        # doc of dimension rb
+        rb: 3
+    lst: !array
+      items: int32
+      dimensions:
+        # doc of p
+        - p
+        # doc of q
+        - q
+    u: !union
+      # doc of case ci
+      ci: int32
+      # doc of case cs
+      cs: string
+    v: !vector
+      # doc of the vector items
+      items: int32
+      # doc of the length
+      length: 2
+    m: !map
+      # doc of keys
+      keys: string
+      # doc of values
+      values: E
+    g: !generic
+      # doc of the generic name
+      name: G
+      args:
+        # doc of the argument
+        - int8
+  computedFields:
+    # doc of c
+    c: a + 1
+
+# doc of G
+G<T>: !record
+  fields:
+    # doc of t
+    t: T
+
+# doc of E
+E: !enum
+  # doc of the base
+  base: uint8
+  values:
+    # doc of p
+    p: 1
+    # doc of q
+    q: 2
+
+# doc of Fl
+Fl: !flags
+  values:
+    # doc of first
+    - first
+    # doc of second
+    - second
+
+# doc of A
+A: R
+
+# doc of P
+P: !protocol
+  sequence:
+    # doc of s
+    s: A
+    # doc of t
+    t: !stream
+      # doc of the stream items
+      items: Fl
+"""
+
+
+def comments_everywhere(ctx):
+    """documentation comments at every position that can carry one (definitions, fields, array dimensions in the three spellings,
+    union cases, vector / map / generic parts, enum and flags values, steps, stream items): without comments, with them, with other
+    wording - the embedded schema must be the same text"""
+    ns = "Cm"
+    variants = {"without": "\n".join(ln for ln in COMMENTED_MODEL.split("\n") if not ln.strip().startswith("#")) ,
+                "with": COMMENTED_MODEL,
+                "reworded": COMMENTED_MODEL.replace("# doc of", "# completely different words about")}
+    res = {}
+    for name, text in variants.items():
+        res[name] = generate(ctx, os.path.join(ctx.scratch, "comments", name), ns, {"model.yml": text})
+        if res[name] is None:
+            raise RuntimeError("yardl rejected the commented model (%s)" % name)
+    base = res["without"]["lits"].get("P", {})
+    for name in ("with", "reworded"):
+        lits = res[name]["lits"].get("P", {})
+        ctx.count("neutral_edit", "comments-everywhere")
+        ctx.case(("comments-everywhere", name), sample={"crafted": "comments at every position", "variant": name, "schema_unchanged": lits == base})
+        if lits != base:
+            leaked = [w for w in ("doc of", "different words") if any(w in v for v in lits.values())]
+            ctx.report("neutral-edit-changes-schema:comments-everywhere", "documentation comments change the schema of protocol P (variant '%s'%s)"
+                       % (name, ", comment text appears in the schema" if leaked else ""),
+                       {"variant": name, "model": variants[name], "model_without_comments": variants["without"],
+                        "before": base.get("python"), "after": lits.get("python")})
+
+
 def crafted(ctx, scases, smeta):
     """shapes the random generator does not reach: two namespaces defining types with the same simple name (both used), and a
     schema longer than the string-literal limits of some compilers"""
@@ -215,6 +334,7 @@ def run(ctx):
                    {"broken": failing, "log": log[-3000:]}, no_input=True)
     quick = ctx.tier == "quick"
     rng = ctx.rng
+    comments_everywhere(ctx)
     scases, smeta = [], []
     ecases, emeta = [], []
     crafted(ctx, scases, smeta)
